@@ -1299,13 +1299,16 @@ func valueFromIndex(info *mapper.Info, columnKeys []model.ColumnKey) (interface{
 			if err != nil {
 				return "", err
 			}
-			// if object is nil dont try to encode it
+			// a nil object or nil pointer (an unset optional column) is not
+			// encoded itself, but its absence is: otherwise the value of
+			// the next column would take its place and (unset, "a") and
+			// ("a", unset) would be the same index value
 			value := reflect.ValueOf(val)
-			if value.Kind() == reflect.Invalid {
-				continue
+			isNil := value.Kind() == reflect.Invalid || (value.Kind() == reflect.Pointer && value.IsNil())
+			if err := enc.Encode(!isNil); err != nil {
+				return "", err
 			}
-			// if object is a nil pointer dont try to encode it
-			if value.Kind() == reflect.Pointer && value.IsNil() {
+			if isNil {
 				continue
 			}
 			err = enc.Encode(val)
